@@ -162,8 +162,8 @@ pub fn gen_base(seed: u64, idx: u64) -> (Plan, Vec<u8>, u64, usize) {
     let vbytes = victim.bytes();
     let mut conns = Vec::new();
     let mut c = blank_conn(1000);
-    c.c2s = WirePolicy { seed: r.next_u64(), max_seg: 0, lat_min: 0, lat_max: r.range(0, 3), cap: 1 << 22, max_write: 0 };
-    c.s2c = WirePolicy { seed: r.next_u64(), max_seg: r.usize_in(0, 64), lat_min: 0, lat_max: r.range(0, 2), cap: 1 << 22, max_write: 0 };
+    c.c2s = WirePolicy { seed: r.next_u64(), max_seg: 0, lat_min: 0, lat_max: r.range(0, 3), cap: 1 << 22, max_write: 0 , opaque: false};
+    c.s2c = WirePolicy { seed: r.next_u64(), max_seg: r.usize_in(0, 64), lat_min: 0, lat_max: r.range(0, 2), cap: 1 << 22, max_write: 0 , opaque: false};
     c.reqs = vec![victim.plan()];
     conns.push(c);
     let nby = r.usize_in(1, 3);
